@@ -113,8 +113,24 @@ def obs_scope(wn, w):
             'ilis': [[i.id, i.status, i.definition()] for i in w.ilis()]}
 
 
+SHORTCUTS = {'hypernyms': ['hypernym', 'instance_hypernym'], 'hyponyms': ['hyponym', 'instance_hyponym'],
+             'holonyms': ['holonym', 'holo_location', 'holo_member', 'holo_part', 'holo_portion', 'holo_substance'],
+             'meronyms': ['meronym', 'mero_location', 'mero_member', 'mero_part', 'mero_portion', 'mero_substance']}
+
+
+def _shortcuts_bad(s):
+    """the documented shortcut methods of a synset against get_related() with the documented relation names"""
+    bad = []
+    for nm, rels in SHORTCUTS.items():
+        a = [_synref(t) for t in getattr(s, nm)()]
+        b = [_synref(t) for t in s.get_related(*rels)]
+        if a != b:
+            bad.append([nm, a, b])
+    return bad
+
+
 def obs_synset_x(wn, s):
-    return {'ref': _synref(s),
+    return {'ref': _synref(s), '_shortcuts_bad': _shortcuts_bad(s),
             'get_related': [_synref(t) for t in s.get_related()],
             'hypernyms': [_synref(t) for t in s.hypernyms()],
             'relations': {k: [_synref(t) for t in v] for k, v in s.relations().items()},
@@ -218,6 +234,14 @@ def _obs_scope_x(wn, w):
         for f in x.forms()[:2]:
             if str(f) not in forms:
                 forms.append(str(f))
+    # taxonomy entry points take the Wordnet: roots / leaves of a part of speech are synsets of its selection
+    import wn.taxonomy as _tax
+    o['_tax'] = {}
+    for p_ in ('n', 'v', 'a', 's', 'r'):
+        try:
+            o['_tax'][p_] = [[_synref(y) for y in _tax.roots(w, p_)], [_synref(y) for y in _tax.leaves(w, p_)], _tax.taxonomy_depth(w, p_)]
+        except wn.Error as e:
+            o['_tax'][p_] = 'error'
     o['_by_form'] = [[f, [[_spec(x.lexicon()), x.id] for x in w.words(f)], [[_spec(x.lexicon()), x.id] for x in w.senses(f)],
                       [_synref(y) for y in w.synsets(f)]] for f in forms[:8]]
     return o
@@ -328,6 +352,8 @@ def canon_battery(b, sort_forms_tail=True):
                    '_nav': sorted([[t, sorted(ms, key=_k), sorted(hs, key=_k)] for t, ms, hs in x.get('_related_synsets_nav', [])], key=_k),
                    '_rnav': sorted([[t, y, sorted(ms, key=_k)] for t, y, ms in x.get('_related_nav', [])], key=_k)})
     sc['senses_x'] = sorted(ys, key=lambda x: _k({k: v for k, v in x.items() if not k.startswith('_')}))
+    sc['_tax'] = {p_: ([sorted(v_[0], key=_k), sorted(v_[1], key=_k), v_[2]] if isinstance(v_, list) else v_)
+                  for p_, v_ in sorted(b['scope'].get('_tax', {}).items())}
     sc['_by_form'] = [[f, sorted(a, key=_k), sorted(b_, key=_k), sorted(c, key=_k)] for f, a, b_, c in b['scope'].get('_by_form', [])]
     return {'S': b['S'], 'E': b['E'], 'missing': sorted(b['missing']), 'scope': sc}
 
@@ -375,8 +401,10 @@ def canon_scope(sc, sort_forms_tail=False):
         fs = []
         for f in w['forms']:
             f = dict(f)
-            f['tags'] = sorted(f['tags'], key=_k)
-            f['prons'] = sorted(f['prons'], key=_k)
+            # tags / pronunciations of a form are reported in document order: the look-up goes through the
+            # single-column index on form_rowid, i.e. in insertion order (validated by correspondence)
+            f['tags'] = list(f['tags'])
+            f['prons'] = list(f['prons'])
             fs.append(f)
         if sort_forms_tail:
             fs = fs[:1] + sorted(fs[1:], key=_k)
@@ -464,6 +492,10 @@ def run_ops_impl(wn, wnenv, scenario, batch_size=None):
     outs = []
     try:
         for k, op in enumerate(scenario['ops']):
+            if op.get('_reconnect'):
+                # a new session on the existing database file: the pooled connection is dropped, the next
+                # call opens (and configures) a fresh one
+                wnenv.close_pool()
             if op['k'] == 'add':
                 f = d / f'res{k}.xml'
                 f.write_text(docs.to_xml(op['res']), encoding='utf-8')
@@ -497,7 +529,11 @@ def run_ops_impl(wn, wnenv, scenario, batch_size=None):
                             by[i] = [x.id, x.status, x.definition()]
                         except wn.Error:
                             by[i] = 'error'
-                    outs.append({'all': [[i.id, i.status, i.definition()] for i in wn.ilis()], 'by_id': by})
+                    sts = ['active', 'provisional', 'deprecated', 'presupposed', 'proposed', 'nosuchstatus']
+                    outs.append({'all': [[i.id, i.status, i.definition()] for i in wn.ilis()], 'by_id': by,
+                                 # the status filter of the listing, module level and on a Wordnet object (oracle only)
+                                 '_by_status': {st: [[i.id, i.status] for i in wn.ilis(status=st)] for st in sts},
+                                 '_by_status_w': {st: [[i.id, i.status] for i in wn.Wordnet().ilis(status=st)] for st in sts}})
             elif op['k'] == 'ili':
                 f = d / f'ili{k}.tsv'
                 cols = op.get('header', ['ili', 'status', 'definition'])
